@@ -530,4 +530,101 @@ Section Paths.
     unfold receiver_htlc_script_taproot_redeem. tap_go Hp. unfold receiver_htlc_tap_leaf_success.
     run_steps. fin.
   Qed.
+
+  (* ================= the relative delay is enforced ================= *)
+  Ltac need_csv E := destruct E; [reflexivity|exfalso].
+
+  Lemma to_local_timeout_needs_csv : forall ctx csv selfkey revkey sig ws,
+    key33 revkey -> key33 selfkey -> u32 csv -> elem_ok sig ->
+    parse_script ws = Some (commit_script_to_self revkey csv selfkey) ->
+    spend_p2wsh h sc ctx (commit_spend_timeout sig ws) = true -> csv_sat ctx csv = true.
+  Proof.
+    unfold key33, u32, elem_ok. intros ctx csv selfkey revkey sig ws Hr Hs Hc Hsig Hp.
+    destruct (csv_sat ctx csv) eqn:E; [reflexivity|].
+    unfold commit_spend_timeout. p2wsh_go Hp. unfold commit_script_to_self. run_steps. discriminate.
+  Qed.
+
+  Lemma lease_to_local_timeout_needs_csv : forall ctx csv lease selfkey revkey sig ws,
+    key33 revkey -> key33 selfkey -> u32 csv -> u32 lease -> elem_ok sig ->
+    parse_script ws = Some (lease_commit_script_to_self revkey lease csv selfkey) ->
+    spend_p2wsh h sc ctx (commit_spend_timeout sig ws) = true ->
+    csv_sat ctx csv = true /\ cltv_sat ctx lease = true.
+  Proof.
+    unfold key33, u32, elem_ok. intros ctx csv lease selfkey revkey sig ws Hr Hs Hc Hl Hsig Hp.
+    destruct (cltv_sat ctx lease) eqn:E2; destruct (csv_sat ctx csv) eqn:E; [split; reflexivity| | |];
+      unfold commit_spend_timeout; p2wsh_go Hp; unfold lease_commit_script_to_self; run_steps; discriminate.
+  Qed.
+
+  Lemma second_level_delay_needs_csv : forall ctx csv delaykey revkey sig ws,
+    key33 revkey -> key33 delaykey -> u32 csv -> elem_ok sig ->
+    parse_script ws = Some (second_level_htlc_script revkey csv delaykey) ->
+    spend_p2wsh h sc ctx (htlc_second_level_spend sig ws) = true -> csv_sat ctx csv = true.
+  Proof.
+    unfold key33, u32, elem_ok. intros ctx csv delaykey revkey sig ws Hr Hs Hc Hsig Hp.
+    destruct (csv_sat ctx csv) eqn:E; [reflexivity|].
+    unfold htlc_second_level_spend. p2wsh_go Hp. unfold second_level_htlc_script. run_steps. discriminate.
+  Qed.
+
+  Lemma to_remote_confirmed_needs_csv : forall ctx key sig ws,
+    key33 key -> elem_ok sig ->
+    parse_script ws = Some (commit_script_to_remote_confirmed key) ->
+    spend_p2wsh h sc ctx (commit_spend_to_remote_confirmed sig ws) = true -> csv_sat ctx 1 = true.
+  Proof.
+    unfold key33, elem_ok. intros ctx key sig ws L1 L2 Hp.
+    destruct (csv_sat ctx 1) eqn:E; [reflexivity|].
+    unfold commit_spend_to_remote_confirmed. p2wsh_go Hp. unfold commit_script_to_remote_confirmed.
+    destruct (checksig sc SegV0 key sig 0) as [[|] bud| |] eqn:Ec; run_steps; discriminate.
+  Qed.
+
+  (* confirmedSpend = true: the 1-block CSV guards every non-revocation path of the HTLC scripts *)
+  Lemma offered_redeem_confirmed_needs_csv : forall ctx revhash rk sk p sig ws,
+    hash20 revhash -> key33 rk -> key33 sk -> hash20 (h p) -> elem_ok sig -> blen p = 32 ->
+    parse_script ws = Some (sender_htlc_script true revhash rk sk (h p)) ->
+    revhash <> h p ->
+    spend_p2wsh h sc ctx (sender_htlc_spend_redeem sig p ws) = true -> csv_sat ctx 1 = true.
+  Proof.
+    unfold key33, hash20, elem_ok. intros ctx revhash rk sk p sig ws L1 L2 L3 L4 L5 L6 Hp Hne.
+    apply bytes_eqb_neq in Hne. destruct (csv_sat ctx 1) eqn:E; [reflexivity|].
+    unfold sender_htlc_spend_redeem. p2wsh_go Hp. unfold sender_htlc_script. cbn [app].
+    destruct (checksig sc SegV0 rk sig 0) as [[|] bud| |] eqn:Ec; run_steps; discriminate.
+  Qed.
+
+  Lemma received_timeout_confirmed_needs_csv : forall ctx revhash sk ph rk cltv sig ws,
+    hash20 revhash -> key33 rk -> key33 sk -> hash20 ph -> u32 cltv -> elem_ok sig ->
+    parse_script ws = Some (receiver_htlc_script true revhash sk ph rk cltv) ->
+    revhash <> h [] ->
+    spend_p2wsh h sc ctx (receiver_htlc_spend_timeout sig ws) = true -> csv_sat ctx 1 = true.
+  Proof.
+    unfold key33, hash20, u32, elem_ok. intros ctx revhash sk ph rk cltv sig ws L1 L2 L3 L4 L5 L6 Hp Hne.
+    apply bytes_eqb_neq in Hne. destruct (csv_sat ctx 1) eqn:E; [reflexivity|].
+    unfold receiver_htlc_spend_timeout. p2wsh_go Hp. unfold receiver_htlc_script. cbn [app].
+    destruct (cltv_sat ctx cltv) eqn:El;
+      destruct (checksig sc SegV0 sk sig 0) as [[|] bud| |] eqn:Ec; run_steps; discriminate.
+  Qed.
+
+  Lemma tap_to_local_delay_needs_csv : forall ctx (prod : bool) selfkey csv sig ls cb,
+    xonly selfkey -> u32 csv -> elem_ok sig -> elem_ok cb -> elem_ok ls ->
+    parse_script ls = Some (taproot_local_commit_delay_script prod selfkey csv) ->
+    spend_tapleaf h sc ctx (taproot_commit_spend_success sig ls cb) = true -> csv_sat ctx csv = true.
+  Proof.
+    unfold xonly, elem_ok. intros ctx prod selfkey csv sig ls cb L1 L2 L3 L4 L5 Hp.
+    destruct (csv_sat ctx csv) eqn:E; [reflexivity|].
+    unfold taproot_commit_spend_success. tap_go Hp. unfold taproot_local_commit_delay_script.
+    match goal with |- context [mkSt _ _ ?b] =>
+      destruct (checksig sc Tapscript selfkey sig b) as [[|] bud| |] eqn:Ec end;
+      destruct prod; run_steps; discriminate.
+  Qed.
+
+  Lemma tap_second_level_delay_needs_csv : forall ctx (prod : bool) delaykey csv sig ls cb,
+    xonly delaykey -> u32 csv -> elem_ok sig -> elem_ok cb -> elem_ok ls ->
+    parse_script ls = Some (taproot_second_level_tap_leaf prod delaykey csv) ->
+    spend_tapleaf h sc ctx (taproot_htlc_spend_success sig ls cb) = true -> csv_sat ctx csv = true.
+  Proof.
+    unfold xonly, elem_ok. intros ctx prod delaykey csv sig ls cb L1 L2 L3 L4 L5 Hp.
+    destruct (csv_sat ctx csv) eqn:E; [reflexivity|].
+    unfold taproot_htlc_spend_success. tap_go Hp. unfold taproot_second_level_tap_leaf.
+    match goal with |- context [mkSt _ _ ?b] =>
+      destruct (checksig sc Tapscript delaykey sig b) as [[|] bud| |] eqn:Ec end;
+      destruct prod; run_steps; discriminate.
+  Qed.
 End Paths.
